@@ -180,6 +180,30 @@ def extra(res, lean, drv, tier, rnd):
         k = rnd.choice([2, 5, 5, 5, 3, 6]); first = rnd.choice(['u', 'u', 'w', 'w', 'v'])
         plines.append('routep ' + ('/' + '/'.join([first] + [rnd.choice(toks) for _ in range(k - 1)]) + rnd.choice(['', '/'])).encode().hex())
     core.kdiff(res, lean, mdrv, plines, oracle=oracle_params, classify=lambda l, o: ('routep', l.split()[1], o[:3]), tag='routep:', retry=2)
+    # 405 + Allow over ALL methods: a router in which HEAD, TRACE and CONNECT have routes too (alone, shared by two, shared by all)
+    alines = []
+    for m in c09.METHODS:
+        for pth in ['/one/%s/x' % k.lower() for k in c09.METHODS] + ['/ht/1', '/gh/2', '/all/3', '//ht//4/', '/one/head', '/one/none/x', '/ht', '/nothing/5']:
+            alines.append('routeall %s %s' % (m, pth.encode().hex()))
+    core.kdiff(res, lean, mdrv, alines, oracle=oracle_all, classify=lambda l, o: ('routeall',) + tuple(l.split()[1:]) + (o[:3],), tag='routeall:', retry=2)
+
+def oracle_all(ln, out):
+    """405 with an Allow header naming exactly the methods that do match, for every method"""
+    from vlib.props import c09
+    if any(x in out for x in ('ASAN', 'UBSAN', 'HANG', 'CRASH', 'TERMINATE', 'MISSING', 'bad-op', 'connect-failed', 'none')): return ('crash', 'implementation aborted/hung or did not answer: ' + out[:120])
+    w = ln.split(); m = w[1]; segs = [x for x in bytes.fromhex(w[2]).decode('latin-1').split('/') if x]
+    owners = []
+    if len(segs) == 3 and segs[0] == 'one': owners = [k for k in c09.METHODS if k.lower() == segs[1]]
+    elif len(segs) == 2 and segs[0] == 'ht': owners = ['HEAD', 'TRACE']
+    elif len(segs) == 2 and segs[0] == 'gh': owners = ['GET', 'HEAD']
+    elif len(segs) == 2 and segs[0] == 'all': owners = list(c09.METHODS)
+    f = dict(kv.split('=', 1) for kv in out.split(' ')[1:] if '=' in kv); status = out[:3]
+    if m in owners:
+        if status != '200' or bytes.fromhex(f.get('body', '')) != (m + ':' + segs[-1]).encode(): return ('wrong-answer', '%s %s answered %s' % (m, '/'.join(segs), out[:80]))
+    elif owners:
+        if status != '405' or f.get('allow') != '+'.join(sorted(owners)): return ('wrong-answer', '%s /%s: expected 405 with Allow %s, got %s' % (m, '/'.join(segs), '+'.join(sorted(owners)), out[:80]))
+    elif status != '404': return ('wrong-answer', '%s /%s: expected 404, got %s' % (m, '/'.join(segs), out[:80]))
+    return None
 
 def oracle_params(ln, out):
     """the bindings the handler reads through the Request accessors are the path segments at the positions of the named parameters"""
@@ -201,6 +225,11 @@ def run(tier):
 def replay(path):
     import json
     case = json.load(open(path)).get('case') or ''
+    if case.startswith('routeall') or case.startswith('routep'):
+        from vlib import drivers
+        mdrv, err = core.build_driver('drv_mt', drivers.MT_SOURCES)
+        out = core.run_lines(mdrv, [case])[0]; d = core.safe_oracle(oracle_all if case.startswith('routeall') else oracle_params, case, out)
+        print('case:', case); print('impl:', out); print('oracle:', d or 'holds'); return 1 if d else 0
     if case.startswith('route'):
         from vlib import drivers
         from vlib.props import c09
